@@ -30,8 +30,10 @@ RULE_ALPHABET = (
 )
 
 # larger vocabulary for random longer sequences
-LN = ["LA", "LB", "LC", "LD", ""]  # the library accepts the empty string as a layer name
-MN = ["pk.m1", "pk.m2", "pk.m3", "pk.sub.m4", "q", "pk", "pk.M1", ""]  # case twin; empty name
+LN = ["LA", "LB", "LC", "LD", "", "la", "LA "]  # the library accepts the empty string as a layer name
+# case twin; empty name; names that differ from another only by surrounding white space (trailing
+# blank / newline, leading tab: none of them can be confused with the ", " of the printed form)
+MN = ["pk.m1", "pk.m2", "pk.m3", "pk.sub.m4", "q", "pk", "pk.M1", "", "pk.m1 ", "pk.m2\n", "\tpk.m3"]
 RN = ["^pk\\.r1.*", "^pk\\.r2.*", ".*r3$"]
 VOCAB = sorted(set(x for x in LN + MN + RN if x), key=lambda t: (-len(t), t))
 
@@ -85,22 +87,53 @@ def enum_rule():
     return out
 
 
-def _arch_ops(obj, seq, new=True, cont=False):
+def _mutate_list(lst, how):
+    """Plan-time mirror of Session.do_mutate (the judge itself goes by what the executor logged)."""
+    if how[0] == "clear":
+        lst.clear()
+    elif how[0] == "append":
+        lst.append(how[1])
+    elif how[0] == "pop" and lst:
+        lst.pop(how[1] % len(lst))
+    elif how[0] == "set" and lst:
+        lst[how[1] % len(lst)] = how[2]
+    elif how[0] == "reverse":
+        lst.reverse()
+    elif how[0] == "refill":
+        lst[:] = how[1]
+
+
+def _arch_ops(obj, seq, new=True, cont=False, held=None):
     """Compile a call sequence on a LayeredArchitecture into ops with model annotations.
     cont: the caller goes on using the object after a rejected call (the rejected call
-    supplied nothing, so the definition must be what it was)."""
+    supplied nothing, so the definition must be what it was).
+    held: caller-owned lists by name (F14): {"$keep": n, "v": [...]} passes a new list the caller
+    keeps, ("@mutate", [n, how]) changes it later, {"$held": n} passes the same list object again."""
     ops = []
     model = LayerDefModel()
+    held = {} if held is None else held
     if new:
         ops.append({"op": "new", "obj": obj, "cls": "LayeredArchitecture"})
     for m, a in seq:
-        verdict, reason = model.classify(m, a)
-        ops.append({"op": "call", "obj": obj, "m": m, "a": a, **({"cont": True} if cont else {})})
-        if verdict == MUST_REJECT:
-            if not cont:
-                break
+        if m == "@mutate":
+            ops.append({"op": "mutate", "name": a[0], "how": a[1]})
+            if a[0] in held:
+                _mutate_list(held[a[0]], a[1])
         else:
-            model.apply(m, a)
+            av = a
+            if a and isinstance(a[0], dict):
+                if "$keep" in a[0]:
+                    held[a[0]["$keep"]] = list(a[0]["v"])
+                    av = [list(a[0]["v"])]
+                elif "$held" in a[0]:
+                    av = [list(held.get(a[0]["$held"], []))]
+            verdict, reason = model.classify(m, av)
+            ops.append({"op": "call", "obj": obj, "m": m, "a": a, **({"cont": True} if cont else {})})
+            if verdict == MUST_REJECT:
+                if not cont:
+                    break
+            else:
+                model.apply(m, av)
         # observation steps; what they must show is decided by the judge's own model
         ops.append({"op": "str", "obj": obj})
         ops.append({"op": "mapping", "obj": obj})
@@ -130,14 +163,25 @@ def _rule_ops(obj, seq, cont=False, watch=None):
     return ops
 
 
-def _random_arch_seq(rng, n, stop=True):
+def _random_arch_seq(rng, n, stop=True, alias=None):
+    """alias: prefix for names of caller-owned lists (F14): list arguments are then mostly lists the
+    caller keeps, changes between calls and sometimes passes again."""
     seq = []
     model = LayerDefModel()
     lay = rng.sample(LN, rng.randint(2, 4))
     mods = rng.sample(MN, rng.randint(2, 5))
+    held = {}
     for _ in range(n):
         roll = rng.random()
         pend = model.pending()
+        if alias and held and rng.random() < 0.35:
+            name = rng.choice(sorted(held))
+            how = rng.choice([["clear"], ["pop", rng.randint(0, 3)], ["append", rng.choice(mods)],
+                              ["set", rng.randint(0, 3), rng.choice(mods)], ["reverse"],
+                              ["refill", rng.sample(mods, rng.randint(1, min(2, len(mods))))]])
+            seq.append(("@mutate", [name, how]))
+            _mutate_list(held[name], how)
+            continue
         # biased towards making progress, with a steady rate of illegal calls
         if roll < 0.08:
             call = ("with_layer", [])
@@ -149,19 +193,30 @@ def _random_arch_seq(rng, n, stop=True):
                 names = rng.sample(mods, k)
                 if rng.random() < 0.06:
                     names, k = [], 0  # a list that names nothing
-                if k == 1 and rng.random() < 0.6:
+                if k == 1 and rng.random() < (0.3 if alias else 0.6):
                     call = ("containing_modules", [names[0]])
+                elif alias and held and rng.random() < 0.3:
+                    call = ("containing_modules", [{"$held": rng.choice(sorted(held))}])
+                elif alias and rng.random() < 0.8:
+                    call = ("containing_modules", [{"$keep": f"{alias}{len(held)}", "v": names}])
                 else:
                     call = ("containing_modules", [names])
         else:
             call = ("layer", [rng.choice(lay)])
         seq.append(call)
-        verdict, _ = model.classify(*call)
+        av = call[1]
+        if av and isinstance(av[0], dict):
+            if "$keep" in av[0]:
+                held[av[0]["$keep"]] = list(av[0]["v"])
+                av = [list(av[0]["v"])]
+            else:
+                av = [list(held[av[0]["$held"]])]
+        verdict, _ = model.classify(call[0], av)
         if verdict == MUST_REJECT:
             if stop:
                 break
             continue
-        model.apply(*call)
+        model.apply(call[0], av)
     return seq
 
 
@@ -257,9 +312,24 @@ def generate(seed, index):
             kind = "enum_rule"
             seqno = slot % len(rule_enum)
             ops = _rule_ops(f"R{c}", rule_enum[seqno], watch=("SA", ["LA", "LB"]))
-        elif roll < 0.72:
+        elif roll < 0.68:
             kind = "random_arch"
             ops, _ = _arch_ops(f"A{c}", _random_arch_seq(rng, rng.randint(3, 12)))
+        elif roll < 0.72:
+            # F14: the caller keeps, changes and re-uses the lists it passes; sometimes the same
+            # list goes to two definitions
+            kind = "arch_caller_owned_lists"
+            held = {}
+            cont = rng.random() < 0.5
+            ops, _ = _arch_ops(f"A{c}", _random_arch_seq(rng, rng.randint(4, 14), stop=not cont, alias=f"k{c}_"),
+                               cont=cont, held=held)
+            if held and rng.random() < 0.4:
+                k = rng.choice(sorted(held))
+                ops2, _ = _arch_ops(f"B{c}", [("layer", ["LA"]), ("containing_modules", [{"$held": k}]),
+                                              ("@mutate", [k, ["append", "pk.m3"]]),
+                                              ("layer", ["LB"]), ("containing_modules", [rng.choice(["pk.m3", ["pk.m3"]])])],
+                                    cont=True, held=held)
+                ops += ops2
         elif roll < 0.8:
             # the object stays in use after rejected calls
             kind = "arch_continued_after_rejection"
